@@ -331,13 +331,14 @@ def check(pid, tier):
     prop = PROPS[pid]
     t0 = time.time()
     base = int(os.environ.get('VERIF_SEED', '20260929'))
-    od = build(sorted(set(st['bin'] for st in prop['stages'])))
+    od = build(sorted(set(b for st in prop['stages'] for b in [st['bin']] + st.get('bins', []))))
     if od is None:
         return 2
     tmpdir = os.path.join(ROOT, 'build', 'tmp')
     os.makedirs(tmpdir, exist_ok=True)
 
     all_viol, all_crashes, stage_ev, errors = [], [], [], []
+    custom_reports = []
     total_runs = 0
     total_distinct = 0
     total_nontrivial = 0
@@ -348,11 +349,13 @@ def check(pid, tier):
         binary = os.path.join(od, st['bin'])
         if st.get('custom'):
             # a stage implemented by a python function (e.g. the configuration matrix)
-            res = st['custom'](prop, st, tier, base, od, tmpdir)
+            res = st['custom'](prop, st, tier, base, od, tmpdir, REPO)
         else:
             res = run_workers(binary, st['mode'], base + 7919 * si, runs, st.get('time', {}).get(tier), tmpdir, '%s-%d' % (pid, si))
         merged = merge_stats(res['stats'])
         errors += res['stderr']
+        for cr in res.get('custom_reports', []):
+            custom_reports.append(cr)
         for v in res['viol']:
             v['_stage'] = si
         for c in res['crashes']:
@@ -396,6 +399,11 @@ def check(pid, tier):
         all_viol.append(v)
 
     known = load_known()
+    for cr in custom_reports:
+        out_lines.append('VIOLATION property=%s replay=%s' % (pid, cr['replay']))
+        log('  class=%s detail=%s' % (cr['class'], cr['detail'][:600]))
+        reported.append({'class': cr['class'], 'replay': os.path.relpath(cr['replay'], ROOT), 'known': False})
+        rc = 1
     if all_viol:
         # one report per violation class (lowest index first)
         all_viol.sort(key=lambda v: (v['_stage'], v.get('i', 0)))
@@ -469,6 +477,14 @@ def check(pid, tier):
 def replay_file(path):
     with open(path) as f:
         rep = json.load(f)
+    if rep.get('engine') == 'cfg':
+        import cfg
+        bad = cfg.replay(rep, REPO)
+        if bad:
+            print('VIOLATION property=%s replay=%s' % (rep.get('property', '?'), path))
+            return 1
+        print('replay of %s: no violation' % path)
+        return 0
     od = build([rep['engine']])
     if od is None:
         return 2
@@ -537,7 +553,16 @@ def main(argv):
         return replay_file(argv[2])
     if cmd == 'build':
         bins = argv[2:] or sorted(set(st['bin'] for p in PROPS.values() for st in p['stages'] if not st.get('custom')))
-        return 0 if build(bins) else 2
+        if not build(bins):
+            return 2
+        if not argv[2:]:
+            import cfg
+            try:
+                cfg.build_matrix(cfg.QUICK, REPO)
+            except RuntimeError as e:
+                log(str(e))
+                return 2
+        return 0
     if cmd == 'determinism':
         n = 2000
         if '--seeds' in argv:
